@@ -91,7 +91,9 @@ Record world := mkw {
   cancelled : list nat;    (* ... of which: fired by their canceller, because the function was cancelled while
                               waiting on them (newest first) *)
   consumed : list nat;     (* Deferreds whose result the driver has already taken (they now hold None) *)
-  seen : list obs          (* ghost: the function's own log and the canceller calls, newest first *)
+  seen : list obs;         (* ghost: the function's own log and the canceller calls, newest first *)
+  held : list nat          (* Deferreds that were fired while explicitly pause()d and have not been unpaused: they
+                              have a raw result but deliver nothing yet; cancel() does not reach them *)
 }.
 
 Definition mem (i : nat) (l : list nat) : bool := existsb (Nat.eqb i) l.
@@ -101,7 +103,9 @@ Inductive status :=
 | Suspended (d : nat) (k : outcome -> gen).    (* status.waitingOn = D[d] *)
 
 (** schedule: Deferred d fires on its own / the user cancels the returned Deferred *)
-Inductive sop := SFire (d : nat) | SCancel.
+(** [SFire d]: Deferred d delivers its (processed) outcome — it fires and runs its own callbacks, or, if it was fired
+    while paused, it is unpaused now.  [SHold d]: d is pause()d and fired: it has a raw result but delivers nothing. *)
+Inductive sop := SFire (d : nat) | SCancel | SHold (d : nat).
 
 (** the outcome Deferred d fires with: its canceller's doing if it is one of [c], its predetermined outcome otherwise *)
 Definition eff (assign : nat -> outcome) (canc : nat -> cbeh) (c : list nat) (d : nat) : outcome :=
@@ -113,8 +117,8 @@ Section Drive.
 
   Definition current (w : world) (d : nat) : outcome :=
     if mem d (consumed w) then Val VNone else eff assign canc (cancelled w) d.
-  Definition consume (d : nat) (w : world) : world := mkw (fired w) (cancelled w) (d :: consumed w) (seen w).
-  Definition say (t : obs) (w : world) : world := mkw (fired w) (cancelled w) (consumed w) (t :: seen w).
+  Definition consume (d : nat) (w : world) : world := mkw (fired w) (cancelled w) (d :: consumed w) (seen w) (held w).
+  Definition say (t : obs) (w : world) : world := mkw (fired w) (cancelled w) (consumed w) (t :: seen w) (held w).
 
   Fixpoint drive (g : gen) (w : world) : status * world :=
     match g with
@@ -142,7 +146,7 @@ Section Drive.
     let '(st, w) := p in
     if mem d (fired w) then (st, w)
     else
-      let w1 := mkw (d :: fired w) (cancelled w) (consumed w) (seen w) in
+      let w1 := mkw (d :: fired w) (cancelled w) (consumed w) (seen w) (held w) in
       match st with
       | Suspended d' k => if Nat.eqb d d' then drive (k (current w1 d)) (consume d w1) else (st, w1)
       | Finished _ => (st, w1)
@@ -161,16 +165,24 @@ Section Drive.
     match st with
     | Finished _ => (st, w)
     | Suspended d k =>
-        let w1 := mkw (d :: fired w) (d :: cancelled w) (consumed w) (Cancelled d :: seen w) in
+        if mem d (held w) then (st, w)     (* fired while paused: [called] is set, Deferred.cancel() does nothing *)
+        else
+        let w1 := mkw (d :: fired w) (d :: cancelled w) (consumed w) (Cancelled d :: seen w) (held w) in
         drive (k (current w1 d)) (consume d w1)
     end.
 
-  Definition step (p : status * world) (o : sop) : status * world :=
-    match o with SFire d => fire d p | SCancel => cancel p end.
+  Definition hold (d : nat) (p : status * world) : status * world :=
+    let '(st, w) := p in
+    if mem d (fired w) then (st, w)
+    else (st, mkw (fired w) (cancelled w) (consumed w) (seen w) (d :: held w)).
 
-  Definition start (pre : list nat) (g : gen) : status * world := drive g (mkw pre [] [] []).
-  Definition run (pre : list nat) (g : gen) (sched : list sop) : status * world :=
-    fold_left step sched (start pre g).
+  Definition step (p : status * world) (o : sop) : status * world :=
+    match o with SFire d => fire d p | SCancel => cancel p | SHold d => hold d p end.
+
+  (** [pre]: fired (and delivered) before the call; [hold0]: fired while paused before the call *)
+  Definition start (pre hold0 : list nat) (g : gen) : status * world := drive g (mkw pre [] [] [] hold0).
+  Definition run (pre hold0 : list nat) (g : gen) (sched : list sop) : status * world :=
+    fold_left step sched (start pre hold0 g).
 End Drive.
 
 (** ---- Spec: the same function called synchronously, every awaited Deferred standing for the outcome [out d]
